@@ -43,7 +43,8 @@ def collect_fields(
     variables: Mapping[str, Any],
     _seen_fragments: Optional[Set[str]] = None,
 ) -> GroupedFields:
-    _seen_fragments = _seen_fragments or set()
+    # An empty set handed down by the caller must stay shared with it.
+    _seen_fragments = set() if _seen_fragments is None else _seen_fragments
     grouped_fields = OrderedDict()  # type: GroupedFields
 
     for selection in selections:
@@ -111,7 +112,8 @@ def collect_fields_untyped(
     variables: Mapping[str, Any],
     _seen_fragments: Optional[Set[str]] = None,
 ) -> GroupedFields:
-    _seen_fragments = _seen_fragments or set()
+    # An empty set handed down by the caller must stay shared with it.
+    _seen_fragments = set() if _seen_fragments is None else _seen_fragments
     grouped_fields = OrderedDict()  # type: GroupedFields
 
     for selection in selections:
